@@ -180,7 +180,7 @@ PROPS = {
                 assumptions=["caller obligations (no destruction while another thread uses the object; no reporter installation during use) are respected by construction",
                              "liveness beyond lock-leak detection is not checked; a stuck run ends in the job time budget and is reported as inconclusive"]),
     "C18": dict(jobs=[rc_job("s_rc", "S", (2, 6000, 60), (12, 60000, 100)), rc_job("s_rc_gcc", "S", (0, 0, 0), (4, 30000, 100), name="S(g++)")],
-                rule="engine S: rapidcheck picks one of 124 value types (scalars, strings, pointer-like and null-comparable values, opaque structs of 1..40 bytes, "
+                rule="engine S: rapidcheck picks one of 149 value types (scalars, strings, pointer-like and null-comparable values, opaque structs of 1..40 bytes, "
                      "types with printer<T> / operator<<, pairs, tuples, collections and C arrays nested to depth 3), a value decoded from a tape, a prior stream state "
                      "(base x fill x width x adjust x showbase x uppercase x boolalpha) and a mode (print / no-match report / expected value / trace / return); an independent "
                      "renderer gives the expected text and the restoration of flags, fill and width is checked directly and by a probe. Plus the exhaustive scope opaque<1..40> x "
